@@ -80,6 +80,9 @@ type Case struct {
 	WS          bool `json:"ws"`
 	WSEmpty     int  `json:"ws_empty"`
 	WSBinary    bool `json:"ws_binary"`
+	// WSGreet (with WS): the method is bidi-streaming and its handler speaks first - it sends a greeting
+	// before its first receive, as chat-like services do
+	WSGreet bool `json:"ws_greet"`
 }
 
 // subKey returns the query key/value that reaches into field f.
@@ -226,7 +229,7 @@ func setText(m *dynamicpb.Message, field, text string) error {
 
 // Check drives one case and applies the oracle.
 func Check(c Case) (vs []evid.Violation, delivered bool) {
-	svc := dyn.Svc("Svc", dyn.MethodSpec{Name: "Do", In: ".c7.Req", Out: ".c7.Req", Rule: c.rule(), ClientStream: c.Stream})
+	svc := dyn.Svc("Svc", dyn.MethodSpec{Name: "Do", In: ".c7.Req", Out: ".c7.Req", Rule: c.rule(), ClientStream: c.Stream || (c.WS && c.WSGreet), ServerStream: c.WS && c.WSGreet})
 	laterSvc := dyn.Svc("Later", dyn.MethodSpec{Name: "Other", In: ".c7.Req", Out: ".c7.Req"})
 	w, err := dyn.NewWorld(dyn.File("c7.proto", "c7", msgs, nil, []*descriptorpb.ServiceDescriptorProto{svc, laterSvc}))
 	if err != nil {
@@ -241,6 +244,19 @@ func Check(c Case) (vs []evid.Violation, delivered bool) {
 		return req, nil
 	}, func(full string, in, out protoreflect.MessageDescriptor, ss grpc.ServerStream) error {
 		var first proto.Message
+		if c.WS && c.WSGreet {
+			if err := ss.SendMsg(dynamicpb.NewMessage(out)); err != nil {
+				return err
+			}
+			m := dynamicpb.NewMessage(in)
+			if err := ss.RecvMsg(m); err != nil {
+				return err
+			}
+			gotMu.Lock()
+			got = append(got, proto.Clone(m))
+			gotMu.Unlock()
+			return nil
+		}
 		for {
 			m := dynamicpb.NewMessage(in)
 			if err := ss.RecvMsg(m); err != nil {
@@ -604,6 +620,7 @@ func genCase(t *rapid.T) Case {
 		c.WS, c.Codec = true, "json"
 		c.WSEmpty = rapid.SampledFrom([]int{0, 0, 1, 2}).Draw(t, "wsEmpty")
 		c.WSBinary = rapid.Bool().Draw(t, "wsBinary")
+		c.WSGreet = rapid.IntRange(0, 2).Draw(t, "wsGreet") == 0
 	}
 	return c
 }
@@ -632,9 +649,12 @@ func classes(c Case, delivered bool) (string, []string) {
 			cl = append(cl, "multi-segment-pattern")
 		}
 	}
-	key += fmt.Sprintf("|json=%v|twice=%v|ws=%v,%d,%v", c.JSONKeys, c.QueryTwice, c.WS, c.WSEmpty, c.WSBinary)
+	key += fmt.Sprintf("|json=%v|twice=%v|ws=%v,%d,%v,%v", c.JSONKeys, c.QueryTwice, c.WS, c.WSEmpty, c.WSBinary, c.WSGreet)
 	if c.WS {
 		cl = append(cl, fmt.Sprintf("websocket-binding:empty-frames=%d", c.WSEmpty))
+		if c.WSGreet {
+			cl = append(cl, "websocket-handler-speaks-first")
+		}
 	}
 	if c.Later {
 		cl = append(cl, "later-registration-on-the-mux")
